@@ -132,5 +132,92 @@ func genC04() {
 			fail("apkindex.go: IndexFromArchive: expected exactly one strings.HasPrefix(hdr.Name, literal), found %d", n)
 		}
 	}
+
+	// indexCache.get: every expression a parsed result is stored or looked up under
+	// (i.store / i.load / i.forget arguments, i.modtimes / i.urlToEtag subscripts, the
+	// sync.Once key) and whether it depends on verificationContext(...), the
+	// verification context of the request (fix C04-F3); and what that function reads.
+	if fd := findFunc("pkg/apk/apk/index.go", "indexCache", "get"); fd == nil {
+		fail("index.go: no method indexCache.get")
+	} else {
+		defs := map[string]ast.Expr{}
+		ast.Inspect(fd, func(n ast.Node) bool {
+			if as, ok := n.(*ast.AssignStmt); ok && as.Tok == token.DEFINE && len(as.Lhs) == 1 && len(as.Rhs) == 1 {
+				if id, ok := as.Lhs[0].(*ast.Ident); ok {
+					if _, dup := defs[id.Name]; !dup {
+						defs[id.Name] = as.Rhs[0]
+					}
+				}
+			}
+			return true
+		})
+		var mentions func(e ast.Expr, depth int) bool
+		mentions = func(e ast.Expr, depth int) bool {
+			if depth > 6 {
+				return false
+			}
+			found := false
+			ast.Inspect(e, func(n ast.Node) bool {
+				switch x := n.(type) {
+				case *ast.CallExpr:
+					if exprText(x.Fun) == "verificationContext" {
+						found = true
+					}
+				case *ast.Ident:
+					if d, ok := defs[x.Name]; ok && d != e && mentions(d, depth+1) {
+						found = true
+					}
+				}
+				return !found
+			})
+			return found
+		}
+		var rows []string
+		ast.Inspect(fd, func(n ast.Node) bool {
+			switch x := n.(type) {
+			case *ast.CallExpr:
+				f := exprText(x.Fun)
+				if (f == "i.store" || f == "i.load" || f == "i.forget" || f == "i.onces.LoadOrStore") && len(x.Args) >= 1 {
+					rows = append(rows, fmt.Sprintf("(%s, %s)", coqStr(f+"("+exprText(x.Args[0])+")"), coqBool(mentions(x.Args[0], 0))))
+				}
+			case *ast.IndexExpr:
+				f := exprText(x.X)
+				if f == "i.modtimes" || f == "i.urlToEtag" {
+					rows = append(rows, fmt.Sprintf("(%s, %s)", coqStr(f+"["+exprText(x.Index)+"]"), coqBool(mentions(x.Index, 0))))
+				}
+			}
+			return true
+		})
+		if len(rows) == 0 {
+			fail("index.go: indexCache.get: no cache key sites found")
+		}
+		g.def("index_cache_key_sites", "list (string * bool)", "["+strings.Join(rows, "; ")+"]", "indexCache.get: (site, key depends on verificationContext)")
+	}
+	if fd := findFunc("pkg/apk/apk/index.go", "", "verificationContext"); fd == nil {
+		g.def("index_cache_ctx_reads", "bool * bool", "(false, false)", "no function verificationContext")
+	} else {
+		chk, keys := false, false
+		ast.Inspect(fd, func(n ast.Node) bool {
+			switch x := n.(type) {
+			case *ast.CallExpr:
+				if exprText(x.Fun) == "shouldCheckSignatureForIndex" {
+					chk = true
+				}
+			case *ast.IndexExpr:
+				if exprText(x.X) == "keys" {
+					keys = true
+				}
+			}
+			return true
+		})
+		g.def("index_cache_ctx_reads", "bool * bool", "("+coqBool(chk)+", "+coqBool(keys)+")", "verificationContext: (consults shouldCheckSignatureForIndex, reads the contents of the configured keys)")
+	}
 	g.write()
+}
+
+func coqBool(b bool) string {
+	if b {
+		return "true"
+	}
+	return "false"
 }
